@@ -30,6 +30,9 @@ LAYOUTS = {
     "comment between paragraphs": [F_("A", ["a"]), blank(), Cm("mid"), blank(), F_("B", ["b"])],
     "no final newline": [F_("A", ["a"]), blank(), F_("B", ["b"], final_newline=False)],
     "one paragraph, trailing blank lines": [F_("A", ["a"]), F_("A2", ["x"]), blank(), blank()],
+    "no final newline, last line is a comment": [F_("A", ["a"]), blank(), F_("B", ["b"]), {"type": "comment", "tokens": [("COMMENT", symstr.mk([("lit", "#"), ("atom", "note", "line")]))]}],
+    "no final newline, last field has no value": [F_("A", ["a"]), blank(), {"type": "field", "key": "B", "lines": [], "tokens": [("KEY", symstr.lit("B")), ("COLON", symstr.lit(":"))]}],
+    "after wrap_and_sort (comments directly under the root)": ("wrap", [Cm("top"), blank(), F_("A", ["a"]), blank(), Cm("mid"), F_("B", ["b"]), blank(), F_("C", ["c"])]),
 }
 
 
@@ -109,11 +112,26 @@ def run(tier):
         C.ob("C05/anchor", P + fn, F.fn(P + fn) is not None, "not found")
     n = 0
     for lname, records in LAYOUTS.items():
+        pre_wrap = isinstance(records, tuple)
+        if pre_wrap:
+            records = records[1]
         toks = []
         for r in records:
             toks += r["tokens"]
         base = paragraphs_of(records)
         comments0 = [symstr.show(t) for k, t in toks if k == "COMMENT"]
+        # comments that sit inside a paragraph (after its first field, before the blank line) go with that paragraph
+        inner = {}
+        pi, seen_field = -1, False
+        for r in records:
+            if r["type"] == "field":
+                if not seen_field:
+                    pi += 1
+                seen_field = True
+            elif r["type"] == "blank":
+                seen_field = False
+            elif r["type"] == "comment" and seen_field:
+                inner.setdefault(pi, []).append(symstr.show(r["tokens"][0][1]))
         np_ = len(base)
         ops = [("add",)] + [("insert", i) for i in range(0, np_ + 2)] + [("remove", i) for i in range(0, np_ + 2)]
         for op in ops:
@@ -125,9 +143,17 @@ def run(tier):
                 continue
             tm = mod.tree
             tm.invalidations, tm.immutable_mutations = [], []
-            root = pdoc[2][0][2]
             I = hirai.Interp(F, tm, max_depth=16)
             I.max_recursion = 6
+            if pre_wrap:
+                s00 = hirai.State({}, dict(st.mon), 0).setroot(("T", "doc0"), pdoc)
+                rw = I.inline(F.fn(P + "Deb822::wrap_and_sort"), [("ref", (("T", "doc0"),)), none(), none()], s00)
+                if len(rw) != 1 or rw[0][0] != OK:
+                    C.ob("C05/parse", label, False, "wrap_and_sort of the layout failed")
+                    continue
+                pdoc = I.deref_val(rw[0][2], rw[0][1])
+                st = rw[0][2]
+            root = pdoc[2][0][2]
             s0 = hirai.State({}, dict(st.mon), 0).setroot(("T", "doc"), pdoc)
             model = [list(p) for p in base]
             try:
@@ -165,12 +191,16 @@ def run(tier):
             live = live_paragraphs(F, tm, s, root, h)
             C.ob("C05/live-paragraphs", label, live == model, "paragraphs() of the edited document reports %s, the list model has %s" % (live, model), fn_sp)
             comments1 = [symstr.show(t) for k, t in flat if k == "COMMENT"]
-            C.ob("C05/comments-kept", label, comments1 == comments0, "comments before %s, after %s" % (comments0, comments1), fn_sp)
+            want_comments = list(comments0)
+            if op[0] == "remove" and op[1] < len(base):
+                for cm in inner.get(op[1], []):
+                    want_comments.remove(cm)
+            C.ob("C05/comments-kept", label, comments1 == want_comments, "comments before %s, after %s" % (comments0, comments1), fn_sp)
             if tm.invalidations:
                 C.note("iterator-invalidation-observed", label)
             if len(C.samples) < 8:
                 C.sample({"layout": lname, "operation": label.split(" :: ")[1], "before": db.text_of_tokens(toks), "after": text})
-    C.floor("C05/operations", n, 50, "layout x operation combinations")
+    C.floor("C05/operations", n, 75, "layout x operation combinations")
     C.assumptions += ["rowan 0.16 semantics as modelled", "bounded: 7 layouts, every index 0..n+1, one paragraph operation (+ one field edit) per run",
                       "the flattened token sequence re-lexes to itself when it is accepted by the well-formed grammar (each token text was produced by the lexer or by a constructor emitting the same character classes)"]
     return C.finish("Paragraph-level operations are interpreted on the parser's trees for 7 symbolic layouts and every index; live paragraph list, well-formedness and paragraph split of the printed token sequence, "
